@@ -1,7 +1,7 @@
 """Rules shared by several properties."""
 import ast
 
-from ..front import AnalysisError, dotted, is_self_attr, src, walk_no_nested
+from ..front import AnalysisError, dotted, fname, is_self_attr, src, walk_no_nested
 
 
 def readonly(repo, run, rule_id, rel, quals, what, allowed=(), floor=None):
@@ -225,3 +225,115 @@ def args_unmodified(repo, run, rule_id, rel, quals, what, exempt=None, floor=Non
         for st, b in bad:
             run.report(rule_id, rel, st, "%s: %s: the caller's array is modified (the state handed down by OdeSystem is a view of the stored trajectory; if user code raises "
                                          "before the value is restored, the recorded state and what reset() restores are corrupted)" % (q, b))
+
+
+# ------------------------------------------------------------------------------------------------
+MEMO_DECORATORS = {"lru_cache", "cache", "cached_property"}
+
+
+def memo_discipline(repo, run, rule_id, rels, what):
+    """Results kept between calls must be keyed by EVERYTHING they depend on.  Two decidable forms:
+    (a) a function decorated with lru_cache / cache is keyed by the hash / identity of its arguments: it must not read ATTRIBUTES of its parameters (or of the
+        elements of a parameter it iterates) -- the objects handed in (event functions carrying `is_terminal`, `direction`; user callables) are mutable, and a
+        changed attribute does not change the key;
+    (b) a function that looks a result up in / stores it into a module-level dict: every parameter the function uses must flow into the key expression."""
+    rid = run.rule(rule_id, "memoisation discipline in %s: (a) an lru_cache'd function reads no attribute of its parameters or of their elements; (b) a module-level dict "
+                            "used as a result registry is keyed by every parameter the result depends on" % what, floor=1)
+    n = 0
+    for rel in rels:
+        mod = repo.module(rel)
+        module_dicts = {t.id for st in mod.tree.body if isinstance(st, ast.Assign) for t in st.targets if isinstance(t, ast.Name) and (
+            isinstance(st.value, ast.Dict) or (isinstance(st.value, ast.Call) and dotted(st.value.func) in ("dict", "collections.OrderedDict", "OrderedDict", "collections.defaultdict", "defaultdict", "weakref.WeakValueDictionary")))}
+        for fn in [x for x in ast.walk(mod.tree) if isinstance(x, (ast.FunctionDef, ast.AsyncFunctionDef))]:
+            params = [a.arg for a in fn.args.posonlyargs + fn.args.args + fn.args.kwonlyargs if a.arg not in ("self", "cls")]
+            decos = {(dotted(d.func) if isinstance(d, ast.Call) else dotted(d) or "").split(".")[-1] for d in fn.decorator_list}
+            if decos & MEMO_DECORATORS:
+                n += 1
+                elems = set(params)
+                for x in ast.walk(fn):       # loop variables over a parameter are elements of it
+                    if isinstance(x, (ast.For, ast.comprehension)):
+                        itn = {y.id for y in ast.walk(x.iter) if isinstance(y, ast.Name)}
+                        if itn & elems:
+                            elems |= {y.id for y in ast.walk(x.target) if isinstance(y, ast.Name)}
+                bad = []
+                for x in ast.walk(fn):
+                    if isinstance(x, ast.Attribute) and isinstance(x.value, ast.Name) and x.value.id in elems and isinstance(x.ctx, ast.Load) and \
+                            x.attr not in ("dtype", "shape", "ndim", "__name__", "__qualname__", "__class__"):
+                        if not (isinstance(x._parent, ast.Call) and x._parent.func is x):        # method calls on immutable keys (str.format ...) are not attribute state
+                            bad.append(x)
+                    if isinstance(x, ast.Call) and dotted(x.func) in ("getattr", "hasattr") and x.args and isinstance(x.args[0], ast.Name) and x.args[0].id in elems:
+                        bad.append(x)
+                run.judged(rid, "%s::%s is memoised on (%s): attribute reads of its arguments: %d" % (rel.split("/")[-1], fn.name, ", ".join(params), len(bad)), ok=not bad)
+                for x in bad[:3]:
+                    run.report(rule_id, rel, x, "`%s` is memoised (%s) on the identity / hash of its arguments but reads `%s`, an attribute of an argument (or of an element of one): "
+                               "when that attribute is changed on the same object between calls -- an event function flagged terminal after a survey run -- the cached result of "
+                               "the old value is returned" % (fn.name, "/".join(sorted(decos & MEMO_DECORATORS)), src(x)[:50]))
+            # (b) module-level registries
+            used_dicts = {}
+            for x in ast.walk(fn):
+                if isinstance(x, ast.Subscript) and isinstance(x.value, ast.Name) and x.value.id in module_dicts:
+                    used_dicts.setdefault(x.value.id, []).append(x.slice)
+                if isinstance(x, ast.Call) and isinstance(x.func, ast.Attribute) and x.func.attr in ("get", "setdefault") and isinstance(x.func.value, ast.Name) and \
+                        x.func.value.id in module_dicts and x.args:
+                    used_dicts.setdefault(x.func.value.id, []).append(x.args[0])
+            for dname, keys in used_dicts.items():
+                stores = [x for x in ast.walk(fn) if isinstance(x, ast.Subscript) and isinstance(x.ctx, ast.Store) and isinstance(x.value, ast.Name) and x.value.id == dname]
+                if not stores or not params:
+                    continue            # a read-only table is not a result cache
+                n += 1
+                from ..sym import inline_locals
+                env = inline_locals(fn)
+
+                def deps(e, depth=0):
+                    out = set()
+                    for y in ast.walk(e):
+                        if isinstance(y, ast.Name):
+                            if y.id in params:
+                                out.add(y.id)
+                            elif y.id in env and depth < 6:
+                                out |= deps(env[y.id], depth + 1)
+                    return out
+                key_deps = set()
+                for k in keys:
+                    key_deps |= deps(k)
+                used = {y.id for y in ast.walk(fn) if isinstance(y, ast.Name) and y.id in params and isinstance(y.ctx, ast.Load)}
+                missing = sorted(used - key_deps)
+                run.judged(rid, "%s::%s keeps results in the module-level dict `%s` keyed by (%s); parameters used: %s" % (
+                    rel.split("/")[-1], fn.name, dname, ", ".join(sorted(key_deps)) or "-", sorted(used)), ok=not missing)
+                if missing:
+                    run.report(rule_id, rel, stores[0], "`%s` returns results kept in the module-level dict `%s`, whose key depends on (%s) only, although the result also depends on the "
+                               "parameter(s) %s: a second request that differs only in %s is answered with the object built for the first" % (
+                                   fn.name, dname, ", ".join(sorted(key_deps)) or "nothing", missing, missing[0]))
+    if n == 0:
+        run.judged(rid, "no memoised function / result registry in scope", nontrivial=False)
+
+
+# ------------------------------------------------------------------------------------------------
+def instance_tables_are_class_tables(repo, run, rule_id):
+    """The order / symplecticity / stability verdicts are computed from the CLASS-level coefficient tables; step() reads `self.tableau_*`.  The two are the same table only if
+    every store to an instance's `tableau_intermediate` / `tableau_final` is an elementwise conversion (dtype, device) of the class attribute of the same name: a slice,
+    a row selection or a table taken from elsewhere makes the integrator step with other coefficients than the ones that were verified."""
+    rid = run.rule(rule_id, "every store to self.tableau_intermediate / self.tableau_final in the integrators package is an elementwise conversion (asarray / astype / copy / to) of "
+                            "the class attribute of the same name: the tables step() reads are the tables that were verified", floor=2)
+    ELEM = {"asarray", "array", "astype", "copy", "clone", "to", "to_device", "ascontiguousarray"}
+    n = 0
+    for rel, mod in repo.modules.items():
+        if not rel.startswith("desolver/integrators/"):
+            continue
+        for st in ast.walk(mod.tree):
+            if not isinstance(st, (ast.Assign, ast.AugAssign)):
+                continue
+            for t in (st.targets if isinstance(st, ast.Assign) else [st.target]):
+                if isinstance(t, ast.Attribute) and t.attr in ("tableau_intermediate", "tableau_final") and isinstance(t.value, ast.Name) and t.value.id == "self":
+                    n += 1
+                    v = st.value if isinstance(st, ast.Assign) else None
+                    while isinstance(v, ast.Call) and ((fname(v) or "").split(".")[-1] in ELEM or (isinstance(v.func, ast.Attribute) and v.func.attr in ELEM)):
+                        v = v.args[0] if v.args and (fname(v) or "").split(".")[-1] in ELEM and not (isinstance(v.func, ast.Attribute) and isinstance(v.func.value, ast.Attribute) and v.func.value.attr == t.attr) else v.func.value
+                    ok = isinstance(v, ast.Attribute) and v.attr == t.attr and src(v.value) in ("self.__class__", "type(self)", "self", "cls")
+                    run.judged(rid, "%s: `%s`" % (rel.split("/")[-1], src(st)[:110]), ok=ok)
+                    if not ok:
+                        run.report(rule_id, rel, st, "an integrator instance's `%s` is set to `%s`, which is not (a conversion of) the class's table: step() then propagates / estimates with other "
+                                   "coefficients than the ones verified for the class (e.g. the embedded row instead of the propagated one once adaptivity is switched off)" % (
+                                       t.attr, src(st.value)[:60] if isinstance(st, ast.Assign) else src(st)[:60]))
+    if n == 0:
+        raise AnalysisError("no store to self.tableau_* found in the integrators package")
